@@ -130,6 +130,109 @@ Proof. induction 1; simpl.
   - destruct (p x), (p y); try apply Permutation_refl. apply perm_swap.
   - eapply perm_trans; eassumption. Qed.
 
+Lemma bind_ret {A} (r : res A) : bind r (fun t => Ok t) = r.
+Proof. destruct r; reflexivity. Qed.
+
+Lemma map_res_ext {A B} (f g : A -> res B) l : (forall x, f x = g x) -> map_res f l = map_res g l.
+Proof. intros H. induction l as [|a l IH]; simpl; [reflexivity|]. rewrite H, IH. reflexivity. Qed.
+
+(* the sub-list a raising filter keeps *)
+Lemma filter_res_sub {A B} (g : A -> B) (q : A -> res bool) l l' :
+  filter_res q l = Ok l' -> incl l' l /\ (NoDup (map g l) -> NoDup (map g l')).
+Proof. revert l'. induction l as [|a l IH]; simpl; intros l' H.
+  - injection H as <-. split; [apply incl_refl|auto].
+  - destruct (q a) as [c|e]; simpl in H; [|discriminate]. destruct (filter_res q l) as [xs|e]; simpl in H; [|discriminate].
+    injection H as <-. destruct (IH xs eq_refl) as [I N]. split.
+    + destruct c; [apply incl_cons; [left; reflexivity|apply incl_tl, I]|apply incl_tl, I].
+    + intros ND. inversion ND as [|? ? Ha ND']; subst. destruct c; [|apply N, ND']. simpl. constructor; [|apply N, ND'].
+      intros Hin. apply Ha. apply in_map_iff in Hin. destruct Hin as [x [E Hx]]. apply in_map_iff. exists x. split; [exact E|apply I, Hx]. Qed.
+
+(* dict lookups (the last entry of a key wins) *)
+Lemma dict_get_absent {V} (d : list (label * V)) k : ~ In k (map fst d) -> dict_get d k = None.
+Proof. induction d as [|[k' v] d IH]; simpl; [reflexivity|]. intros H. rewrite IH by tauto.
+  destruct (label_eqb_spec k' k); [tauto|reflexivity]. Qed.
+Lemma dict_item_in {V} (d : list (label * V)) k v : NoDup (map fst d) -> In (k, v) d -> dict_item d k = Ok v.
+Proof. unfold dict_item. induction d as [|[k' v'] d IH]; simpl; intros ND H; [destruct H|].
+  inversion ND as [|? ? Hn ND']; subst. destruct H as [H|H].
+  - injection H as -> ->. rewrite (dict_get_absent d k Hn), label_eqb_refl. reflexivity.
+  - specialize (IH ND' H). destruct (dict_get d k); [exact IH|discriminate]. Qed.
+Lemma dict_item_absent {V} (d : list (label * V)) k : ~ In k (map fst d) -> dict_item d k = Err EKeyError.
+Proof. intros H. unfold dict_item. rewrite (dict_get_absent d k H). reflexivity. Qed.
+Lemma dict_item_enum (l : list label) k : NoDup l -> In k l -> dict_item (combine l (seq 0%nat (length l))) k = Ok (lindex l k).
+Proof. intros NDl H. unfold dict_item.
+  assert (G : forall s, dict_get (combine l (seq s (length l))) k = Some (s + lindex l k)%nat).
+  { induction l as [|a l IH]; intros s; [destruct H|]. simpl. inversion NDl as [|? ? Hn NDl']; subst.
+    destruct (label_eqb_spec a k) as [->|Ne].
+    - rewrite dict_get_absent; [f_equal; lia|]. intros Hin. apply Hn.
+      clear -Hin. revert Hin. generalize (S s). induction l as [|x l IH]; intros s0 Hin; simpl in *; [destruct Hin|].
+      destruct Hin as [->|Hin]; [left; reflexivity|right; apply (IH _ Hin)].
+    - destruct H as [H|H]; [congruence|]. rewrite (IH NDl' H (S s)). f_equal. lia. }
+  rewrite (G 0%nat). reflexivity. Qed.
+
+(* d[k] = v for a key that is not yet there: appended *)
+Lemma dict_set_fresh {V} (d : list (label * V)) k v : ~ In k (map fst d) -> dict_set d k v = d ++ [(k, v)].
+Proof. induction d as [|[k' v'] d IH]; simpl; intros H; [reflexivity|].
+  destruct (label_eqb_spec k' k) as [E|E]; [tauto|]. rewrite IH by tauto. reflexivity. Qed.
+
+(* a dict comprehension over distinct keys stores its items in order *)
+Lemma dict_of_items_distinct {V} (l : list (label * V)) : NoDup (map fst l) -> dict_of_items l = l.
+Proof. unfold dict_of_items. intros ND.
+  assert (G : forall acc, (forall k, In k (map fst acc) -> ~ In k (map fst l)) ->
+              fold_left (fun d kv => dict_set d (fst kv) (snd kv)) l acc = acc ++ l).
+  { induction l as [|[k v] l IH]; intros acc Hd; simpl; [rewrite app_nil_r; reflexivity|].
+    inversion ND as [|? ? Hk ND']; subst.
+    rewrite dict_set_fresh by (intros H; apply (Hd k H); left; reflexivity).
+    rewrite IH; [rewrite <- app_assoc; reflexivity|exact ND'|].
+    intros k0 H0. rewrite map_app in H0. apply in_app_or in H0. destruct H0 as [H0|[<-|[]]]; [|exact Hk].
+    intros H1. apply (Hd k0 H0). right. exact H1. }
+  apply (G []). intros k []. Qed.
+
+(* {k: d[k] for k in d if c(k)} — filter and lookup interleaved — keeps the items of d whose key passes *)
+Lemma filter_comp_generic {V} (c' : label -> res bool) (f : label -> res (label * V)) (d : list (label * V)) (c : label -> res bool) :
+  (forall k, c' k = c k) -> (forall k, f k = bind (dict_item d k) (fun v => Ok (k, v))) -> NoDup (map fst d) ->
+  comp_res c' f (map fst d) = filter_res (fun kv => c (fst kv)) d.
+Proof. intros Hc Hf ND.
+  assert (G : forall l, incl l d -> comp_res c' f (map fst l) = filter_res (fun kv => c (fst kv)) l).
+  { induction l as [|[k v] l IH]; intros I; simpl; [reflexivity|]. rewrite Hc.
+    destruct (c k) as [t|e]; simpl; [|reflexivity]. rewrite IH by (intros x Hx; apply I; right; exact Hx).
+    destruct t; [|destruct (filter_res _ l); reflexivity].
+    rewrite Hf, (dict_item_in d k v ND (I _ (or_introl eq_refl))). simpl. reflexivity. }
+  apply G, incl_refl. Qed.
+
+(* acc = {}; for k in d: if c(k): acc[k] = d[k]   — the same items *)
+Lemma filter_loop_generic {V} (body : list (label * V) -> label -> res (list (label * V))) (d : list (label * V)) (c : label -> res bool) :
+  (forall acc k, body acc k = bind (c k) (fun t => if t then bind (dict_item d k) (fun v => Ok (dict_set acc k v)) else Ok acc)) ->
+  NoDup (map fst d) -> for_res (map fst d) body [] = filter_res (fun kv => c (fst kv)) d.
+Proof. intros Hb ND.
+  assert (G : forall l acc, incl l d -> NoDup (map fst l) -> (forall k, In k (map fst acc) -> ~ In k (map fst l)) ->
+              for_res (map fst l) body acc = bind (filter_res (fun kv => c (fst kv)) l) (fun xs => Ok (acc ++ xs))).
+  { induction l as [|[k v] l IH]; intros acc I NDl Hd; simpl; [rewrite app_nil_r; reflexivity|]. rewrite Hb.
+    inversion NDl as [|? ? Hk NDl']; subst.
+    destruct (c k) as [t|e]; simpl; [|reflexivity]. destruct t.
+    - rewrite (dict_item_in d k v ND (I _ (or_introl eq_refl))). simpl.
+      rewrite dict_set_fresh by (intros H; apply (Hd k H); left; reflexivity).
+      rewrite IH; [|intros x Hx; apply I; right; exact Hx|exact NDl'|].
+      + destruct (filter_res _ l); simpl; [rewrite <- app_assoc; reflexivity|reflexivity].
+      + intros k0 H0. rewrite map_app in H0. apply in_app_or in H0. destruct H0 as [H0|[<-|[]]]; [|exact Hk].
+        intros H1. apply (Hd k0 H0). right. exact H1.
+    - cbn [bind]. rewrite IH; [|intros x Hx; apply I; right; exact Hx|exact NDl'|].
+      + destruct (filter_res _ l); reflexivity.
+      + intros k0 H0 H1. apply (Hd k0 H0). right. exact H1. }
+  rewrite (G d [] (incl_refl d) ND) by (intros k []). destruct (filter_res _ d); reflexivity. Qed.
+
+(* len(set(l)) == len(l) exactly when the items of l are distinct *)
+Lemma nodup_length_le (l : list nat) : length (nodup Nat.eq_dec l) <= length l.
+Proof. induction l as [|a l IH]; simpl; [lia|]. destruct (in_dec Nat.eq_dec a l); simpl; lia. Qed.
+Lemma natset_len_distinct (l : list nat) : Nat.eqb (natset_len (natset_of_list l)) (length l) = true <-> NoDup l.
+Proof. unfold natset_len, natset_of_list. rewrite Nat.eqb_eq. split.
+  - induction l as [|a l IH]; simpl; intros H; [constructor|]. destruct (in_dec Nat.eq_dec a l) as [Hin|Hn].
+    + pose proof (nodup_length_le l). lia.
+    + simpl in H. constructor; [exact Hn|apply IH; lia].
+  - intros H. rewrite nodup_fixed_point by exact H. reflexivity. Qed.
+
+Lemma mapping_item_in (m : mapping) k : In k m -> mapping_item m k = Ok (lindex m k).
+Proof. intros H. unfold mapping_item. replace (lmem k m) with true; [reflexivity|]. symmetry. apply lmem_spec, H. Qed.
+
 (* the probe-name loop *)
 Lemma while_in_append_eq fuel s ids : while_in_append_fuel fuel s [underscore] ids = probe_loop fuel s ids.
 Proof. revert s. induction fuel as [|f IH]; intros s; simpl; [reflexivity|]. rewrite IH. reflexivity. Qed.
@@ -297,6 +400,76 @@ Proof. intros ND H1 H2 Hd Ho.
       * apply in_or_app. right. apply in_flat_map. exists (nth j R [], nth i R []). split; [apply combinations2_nth; assumption|right; left; reflexivity].
       * simpl. rewrite !lindex_nth by assumption. rewrite !Nat.eqb_refl. reflexivity. Qed.
 
+(* ====================== label_mapping.py: class LabelMapping and filter ====================== *)
+(* The translated members of the class (module py_label_mapping_m, over the dict of the object) are the primitives mapping_* /
+   fmapping_* that the other modules use for them, on the dict [lm_dict m] of a mapper-built LabelMapping with key list m. *)
+Section LabelMappingClass.
+Variable m : mapping.
+
+Lemma lm_dict_keys : map fst (lm_dict m) = m.
+Proof. apply combine_map_fst_seq. Qed.
+Lemma lm_dict_values : map snd (lm_dict m) = seq 0 (length m).
+Proof. unfold lm_dict. generalize 0%nat. induction m as [|a l IH]; intros k; simpl; [reflexivity|]. rewrite IH. reflexivity. Qed.
+Lemma lm_dict_length : length (lm_dict m) = length m.
+Proof. unfold lm_dict. rewrite combine_length, seq_length. lia. Qed.
+(* the dict {k: v for v, k in enumerate(m)} *)
+Lemma lm_dict_enumerate : lm_dict m = map (fun vk => (snd vk, fst vk)) (enumerate m).
+Proof. unfold lm_dict, enumerate. generalize 0%nat. induction m as [|a l IH]; intros k; simpl; [reflexivity|]. rewrite IH. reflexivity. Qed.
+
+Theorem LabelMapping_keys_eq : py_label_mapping_m.LabelMapping_keys K (lm_dict m) = mapping_keys m.
+Proof. unfold py_label_mapping_m.LabelMapping_keys, dict_keys. apply lm_dict_keys. Qed.
+Theorem LabelMapping_iter_eq : py_label_mapping_m.LabelMapping___iter__ K (lm_dict m) = mapping_keys m.
+Proof. unfold py_label_mapping_m.LabelMapping___iter__, dict_keys. apply lm_dict_keys. Qed.
+Theorem LabelMapping_values_eq : py_label_mapping_m.LabelMapping_values K (lm_dict m) = mapping_values m.
+Proof. unfold py_label_mapping_m.LabelMapping_values, dict_values. apply lm_dict_values. Qed.
+Theorem LabelMapping_N_eq : py_label_mapping_m.LabelMapping_N K (lm_dict m) = mapping_N m.
+Proof. unfold py_label_mapping_m.LabelMapping_N. apply lm_dict_length. Qed.
+
+Hypothesis NDm : NoDup m.
+
+Theorem LabelMapping_getitem_eq k : py_label_mapping_m.LabelMapping___getitem__ K (lm_dict m) k = mapping_item m k.
+Proof. unfold py_label_mapping_m.LabelMapping___getitem__, mapping_item. destruct (lmem k m) eqn:E.
+  - apply dict_item_enum; [exact NDm|apply lmem_spec, E].
+  - apply dict_item_absent. rewrite lm_dict_keys. intros H. apply lmem_spec in H. congruence. Qed.
+Theorem LabelMapping_getitem_key k : In k m ->
+  py_label_mapping_m.LabelMapping___getitem__ K (lm_dict m) k = Ok (mapping_index m k).
+Proof. intros H. rewrite LabelMapping_getitem_eq. apply mapping_item_in, H. Qed.
+(* m(a, b, ...) = (m[a], m[b], ...) *)
+Theorem LabelMapping_call_eq ks : py_label_mapping_m.LabelMapping___call__ K (lm_dict m) ks = map_res (mapping_item m) ks.
+Proof. unfold py_label_mapping_m.LabelMapping___call__. apply map_res_ext. intros k. rewrite ?bind_ret. apply LabelMapping_getitem_eq. Qed.
+End LabelMappingClass.
+
+(* LabelMapping(d) raises DistinctValues exactly when two keys share a value *)
+Theorem LabelMapping_new_eq (d : fmapping) : NoDup (map snd d) -> py_label_mapping_m.LabelMapping__new K d = Ok d.
+Proof. intros H. unfold py_label_mapping_m.LabelMapping__new, py_label_mapping_m.LabelMapping___post_init__, dict_values.
+  rewrite <- (map_length snd d). rewrite (proj2 (natset_len_distinct (map snd d)) H). reflexivity. Qed.
+Theorem LabelMapping_new_raises (d : fmapping) : ~ NoDup (map snd d) -> py_label_mapping_m.LabelMapping__new K d = Err EOther.
+Proof. intros H. unfold py_label_mapping_m.LabelMapping__new, py_label_mapping_m.LabelMapping___post_init__, dict_values.
+  rewrite <- (map_length snd d). destruct (Nat.eqb _ _) eqn:E; [|reflexivity]. apply natset_len_distinct in E. tauto. Qed.
+
+(* the members of a filtered mapping *)
+Theorem fmapping_members (d : fmapping) k :
+  py_label_mapping_m.LabelMapping_keys K d = fmapping_keys d /\ py_label_mapping_m.LabelMapping___getitem__ K d k = fmapping_item d k.
+Proof. split; reflexivity. Qed.
+
+(* label_mapping.filter: the sub-dict, every key keeping its index (two shapes: a dict comprehension, or a loop filling a dict) *)
+Theorem label_mapping_filter_eq (m : mapping) (p : label -> res bool) : NoDup m ->
+  py_label_mapping_m.label_mapping_filter K (lm_dict m) p = mapping_filter_res m p.
+Proof. intros NDm. assert (NDk : NoDup (map fst (lm_dict m))) by (rewrite lm_dict_keys; exact NDm).
+  unfold py_label_mapping_m.label_mapping_filter, mapping_filter_res. cbv zeta. fold (lm_dict m).
+  change (py_label_mapping_m.LabelMapping_keys K (lm_dict m)) with (map fst (lm_dict m)).
+  match goal with |- bind ?X _ = _ => assert (E : X = filter_res (fun kv => p (fst kv)) (lm_dict m)) end.
+  { first [ apply filter_comp_generic; [intros k; apply bind_ret|intros k; reflexivity|exact NDk]
+          | apply filter_loop_generic; [|exact NDk]; intros acc k; unfold py_label_mapping_m.LabelMapping___getitem__;
+            destruct (p k) as [[|]|e]; simpl; try reflexivity; destruct (dict_item (lm_dict m) k); reflexivity ]. }
+  rewrite E. destruct (filter_res _ _) as [d'|e] eqn:F; simpl; [|reflexivity].
+  rewrite ?dict_of_items_distinct by (apply (proj2 (filter_res_sub fst _ _ _ F)), NDk).
+  apply LabelMapping_new_eq. apply (proj2 (filter_res_sub snd _ _ _ F)). rewrite lm_dict_values. apply seq_NoDup. Qed.
+
+(* a filter function that cannot raise *)
+Theorem mapping_filter_pure (m : mapping) (p : label -> bool) : mapping_filter_res m (fun k => Ok (p k)) = Ok (mapping_filter m p).
+Proof. unfold mapping_filter_res, mapping_filter. apply filter_res_pure. intros; reflexivity. Qed.
+
 (* ====================== network.py: the list-valued methods ====================== *)
 Lemma branches_connected_to_perm (n : network K) i :
   Permutation (py_network_m.Network_branches_connected_to K n i) (filter (connected i) (branches n)).
@@ -308,7 +481,7 @@ Proof. unfold set2_eqb, between, lmem. simpl. rewrite !orb_false_r, !andb_true_r
 
 Lemma branches_between_eq (n : network K) i j :
   py_network_m.Network_branches_between K n i j = filter (between i j) (branches n).
-Proof. unfold py_network_m.Network_branches_between. apply filter_ext. intros b. apply set2_eqb_between. Qed.
+Proof. unfold py_network_m.Network_branches_between. cbv zeta. apply filter_ext. intros b. apply set2_eqb_between. Qed.
 
 Definition other_end (i : label) (b : branch K) : label := if negb (label_eqb (node1 b) i) then node1 b else node2 b.
 Lemma nodes_connected_to_eq (n : network K) i :
@@ -546,9 +719,6 @@ Proof. pose proof (node_index_NoDup n) as NDn. pose proof (cs_index_NoDup n ND) 
       apply andb_true_iff in Hh; destruct Hh as [Hh _]; apply andb_true_iff in Hh; destruct Hh as [He Hh]; apply Nat.eqb_eq in Hh.
       * apply N1. apply (hit_node _ i He E1 Hh).
       * apply N2. apply (hit_node _ i He E2 Hh). Qed.
-
-Lemma mapping_item_in (m : mapping) k : In k m -> mapping_item m k = Ok (lindex m k).
-Proof. intros H. unfold mapping_item. replace (lmem k m) with true; [reflexivity|]. symmetry. apply lmem_spec, H. Qed.
 
 Theorem source_incidence_matrix_eq_ :
   py_node_analysis.source_incidence_matrix K n (py_label_mapping.default_node_mapper K)
